@@ -55,18 +55,20 @@ Record frame := {
   f_clone : option (registry * N);
   f_id : option N;
   f_prev : option Z;
-  f_slot : option (list N)
+  f_slot : option (list N);
+  f_result : option outcome     (* `let r = callee(..)` : result kept for a later `r` *)
 }.
 
-Definition set_locals fr v := {| f_locals := v; f_raw := f_raw fr; f_action := f_action fr; f_where := f_where fr; f_published := f_published fr; f_clone := f_clone fr; f_id := f_id fr; f_prev := f_prev fr; f_slot := f_slot fr |}.
-Definition set_raw fr v := {| f_locals := f_locals fr; f_raw := v; f_action := f_action fr; f_where := f_where fr; f_published := f_published fr; f_clone := f_clone fr; f_id := f_id fr; f_prev := f_prev fr; f_slot := f_slot fr |}.
-Definition set_action fr v := {| f_locals := f_locals fr; f_raw := f_raw fr; f_action := v; f_where := f_where fr; f_published := f_published fr; f_clone := f_clone fr; f_id := f_id fr; f_prev := f_prev fr; f_slot := f_slot fr |}.
-Definition set_where fr v := {| f_locals := f_locals fr; f_raw := f_raw fr; f_action := f_action fr; f_where := v; f_published := f_published fr; f_clone := f_clone fr; f_id := f_id fr; f_prev := f_prev fr; f_slot := f_slot fr |}.
-Definition set_published fr v := {| f_locals := f_locals fr; f_raw := f_raw fr; f_action := f_action fr; f_where := f_where fr; f_published := v; f_clone := f_clone fr; f_id := f_id fr; f_prev := f_prev fr; f_slot := f_slot fr |}.
-Definition set_clone fr v := {| f_locals := f_locals fr; f_raw := f_raw fr; f_action := f_action fr; f_where := f_where fr; f_published := f_published fr; f_clone := v; f_id := f_id fr; f_prev := f_prev fr; f_slot := f_slot fr |}.
-Definition set_id fr v := {| f_locals := f_locals fr; f_raw := f_raw fr; f_action := f_action fr; f_where := f_where fr; f_published := f_published fr; f_clone := f_clone fr; f_id := v; f_prev := f_prev fr; f_slot := f_slot fr |}.
-Definition set_prev fr v := {| f_locals := f_locals fr; f_raw := f_raw fr; f_action := f_action fr; f_where := f_where fr; f_published := f_published fr; f_clone := f_clone fr; f_id := f_id fr; f_prev := v; f_slot := f_slot fr |}.
-Definition set_slot fr v := {| f_locals := f_locals fr; f_raw := f_raw fr; f_action := f_action fr; f_where := f_where fr; f_published := f_published fr; f_clone := f_clone fr; f_id := f_id fr; f_prev := f_prev fr; f_slot := v |}.
+Definition set_locals fr v := {| f_locals := v; f_raw := f_raw fr; f_action := f_action fr; f_where := f_where fr; f_published := f_published fr; f_clone := f_clone fr; f_id := f_id fr; f_prev := f_prev fr; f_slot := f_slot fr; f_result := f_result fr |}.
+Definition set_raw fr v := {| f_locals := f_locals fr; f_raw := v; f_action := f_action fr; f_where := f_where fr; f_published := f_published fr; f_clone := f_clone fr; f_id := f_id fr; f_prev := f_prev fr; f_slot := f_slot fr; f_result := f_result fr |}.
+Definition set_action fr v := {| f_locals := f_locals fr; f_raw := f_raw fr; f_action := v; f_where := f_where fr; f_published := f_published fr; f_clone := f_clone fr; f_id := f_id fr; f_prev := f_prev fr; f_slot := f_slot fr; f_result := f_result fr |}.
+Definition set_where fr v := {| f_locals := f_locals fr; f_raw := f_raw fr; f_action := f_action fr; f_where := v; f_published := f_published fr; f_clone := f_clone fr; f_id := f_id fr; f_prev := f_prev fr; f_slot := f_slot fr; f_result := f_result fr |}.
+Definition set_published fr v := {| f_locals := f_locals fr; f_raw := f_raw fr; f_action := f_action fr; f_where := f_where fr; f_published := v; f_clone := f_clone fr; f_id := f_id fr; f_prev := f_prev fr; f_slot := f_slot fr; f_result := f_result fr |}.
+Definition set_clone fr v := {| f_locals := f_locals fr; f_raw := f_raw fr; f_action := f_action fr; f_where := f_where fr; f_published := f_published fr; f_clone := v; f_id := f_id fr; f_prev := f_prev fr; f_slot := f_slot fr; f_result := f_result fr |}.
+Definition set_id fr v := {| f_locals := f_locals fr; f_raw := f_raw fr; f_action := f_action fr; f_where := f_where fr; f_published := f_published fr; f_clone := f_clone fr; f_id := v; f_prev := f_prev fr; f_slot := f_slot fr; f_result := f_result fr |}.
+Definition set_prev fr v := {| f_locals := f_locals fr; f_raw := f_raw fr; f_action := f_action fr; f_where := f_where fr; f_published := f_published fr; f_clone := f_clone fr; f_id := f_id fr; f_prev := v; f_slot := f_slot fr; f_result := f_result fr |}.
+Definition set_slot fr v := {| f_locals := f_locals fr; f_raw := f_raw fr; f_action := f_action fr; f_where := f_where fr; f_published := f_published fr; f_clone := f_clone fr; f_id := f_id fr; f_prev := f_prev fr; f_slot := v; f_result := f_result fr |}.
+Definition set_result fr v := {| f_locals := f_locals fr; f_raw := f_raw fr; f_action := f_action fr; f_where := f_where fr; f_published := f_published fr; f_clone := f_clone fr; f_id := f_id fr; f_prev := f_prev fr; f_slot := f_slot fr; f_result := v |}.
 
 Definition st_disp st v := {| disp_of := v; reg := reg st; next_id := next_id st; fallback := fallback st; inst := inst st |}.
 Definition st_data st r n := {| disp_of := disp_of st; reg := r; next_id := n; fallback := fallback st; inst := inst st |}.
@@ -118,6 +120,13 @@ Definition exec_sop (o : os) (k : fdkind) (sig : Z) (call : fn_id -> frame -> st
   match s with
   | OAssertNotForbidden => if is_forbidden sig then Exit (Panic PForbidden) fr st else Next fr st
   | OCall f => match call f fr st with Exit r fr' st' => Exit r fr' st' | Next fr' st' => stuck fr' st' end
+  | OCallBind f =>       (* `let r = f(..);` : whatever the callee returned is kept, execution continues *)
+      match call f fr st with
+      | Exit (Panic w) fr' st' => Exit (Panic w) fr' st'
+      | Exit r fr' st' => Next (set_result fr' (Some r)) st'
+      | Next fr' st' => stuck fr' st'
+      end
+  | OReturnBound => match f_result fr with Some r => Exit r fr st | None => stuck fr st end
   | OCallQ f =>
       match call f fr st with
       | Exit (OkId n) fr' st' => Next (set_id fr' (Some n)) st'
@@ -252,7 +261,7 @@ Definition all_params (f : fn_id) : list res := map fst (params f).
 
 Definition init_frame (f : fn_id) : frame :=
   {| f_locals := owned_params f; f_raw := raw_params f; f_action := []; f_where := ALocal; f_published := false;
-     f_clone := None; f_id := None; f_prev := None; f_slot := None |}.
+     f_clone := None; f_id := None; f_prev := None; f_slot := None; f_result := None |}.
 
 (** outcome, state after, resources released (dropped/closed) during the call, resources kept
     (captured by the action that now sits in the published snapshot), resources leaked (raw
